@@ -424,10 +424,48 @@ def rule_SL(ctx, tier):
     ws = field_writes(ctx, d, "available_slots")
     if len(ws) != 1:
         rr.fail("refund:writes=%d" % len(ws), "expected one write of available_slots in delete_appointments", where=d.span)
+    from .rulekit import eval_u32, Wraps, U32
+
+    def refund_leaf(pt):
+        def leaf(t):
+            if isinstance(t, tuple) and t and t[0] == "proj" and t[2] and t[2][-1] == "f:available_slots":
+                return pt[0]
+            if isinstance(t, tuple) and t and t[0] in ("call", "ret") and t[1] == "teos_common::appointment::compute_appointment_slots" \
+                    and "get_appointment_user_and_length" in og.show(t):
+                return pt[1]
+            return None
+        return leaf
     for bb, v in ws:
         s = og.show(v)
-        if "Add" in s and "compute_appointment_slots" in s and "get_appointment_user_and_length" in s and "f:available_slots" in s:
-            rr.ok("refund = available + slots(stored blob)", sample={"rule": "SL", "refund write": s[:200]})
+        # judged on boundary points: the new balance is available + slots(stored blob) wherever that fits a u32, and is
+        # never below the old balance where it does not (a renewal fills the balance up to u32::MAX without counting the
+        # slots in use, so a later refund can exceed it: a plain `+=` wraps to almost nothing in a release build and
+        # panics holding the users and database locks in a build with overflow checks)
+        verdict = "ok"
+        for a_ in (0, 1, 10000, U32 - 2, U32 - 1):
+            for k_ in (1, 2, 17):
+                try:
+                    got = eval_u32(v, refund_leaf((a_, k_)))
+                except Wraps:
+                    verdict = ("wraps", a_, k_)
+                    break
+                if got is None:
+                    verdict = None
+                    break
+                if (a_ + k_ < U32 and got != a_ + k_) or (a_ + k_ >= U32 and got < a_):
+                    verdict = ("wrong", a_, k_, got)
+                    break
+            if verdict != "ok":
+                break
+        named = "compute_appointment_slots" in s and "get_appointment_user_and_length" in s and "f:available_slots" in s
+        if verdict == "ok" and named:
+            rr.ok("refund = available + slots(stored blob), never past u32::MAX", sample={"rule": "SL", "refund write": s[:200]})
+        elif verdict and verdict[0] == "wraps" and named:
+            rr.fail("refund:balance-wraps", "the refund is a plain `available_slots + slots`: a renewal may have filled the balance up to u32::MAX while slots were in use, and giving them back then wraps the balance to almost nothing (release) or panics on the chain thread holding the users and database locks (overflow checks) — at available=%d, refund=%d" % (verdict[1], verdict[2]), where=d.line_of(bb))
+        elif verdict and verdict[0] == "wrong" and named:
+            rr.fail("refund:formula", "refund writes `%s`: with available=%d and %d slots to give back the balance becomes %d" % (s[:160], verdict[1], verdict[2], verdict[3]), where=d.line_of(bb))
+        elif verdict is None and "Add" in s and named:
+            rr.ok("refund = available + slots(stored blob)", sample={"rule": "SL", "refund write": s[:200], "judged": "by its form"})
         else:
             rr.fail("refund:formula", "refund writes `%s`" % s[:200], where=d.line_of(bb))
     # the balance persisted with the deletion is the FINAL in-memory balance: every refund (re)writes the user's
